@@ -208,8 +208,82 @@ def check_values(real, robs, exp, tp_at, saved, c, where, wrapped=None):
     return None
 
 
+def incremental_case(ctx, rng):
+    """answers built incrementally by recursive predicates (append, dup, rev with accumulator): a list of n cells in
+    which every tail is a variable bound one recursion level deeper - n nested bindings on one path, n up to 150.
+    The values collected with the documented idiom must be free of variables and still right after the query."""
+    real = ctx['real']
+    E = real.E
+    n = rng.choice([3, 20, 40, 63, 64, 65, 66, 80, 100, 128, 129, 150])
+    kind = rng.choice(['append', 'dup', 'revacc', 'append_split'])
+    items = [rng.choice(['a', 'b', 'c']) for _ in range(n)]
+    src = ('app([], Y, Y).\napp([H|T], Y, [H|R]) :- app(T, Y, R).\n'
+           'dup([], []).\ndup([X|T], [X,X|R]) :- dup(T, R).\n'
+           'rv([], A, A).\nrv([H|T], A, R) :- rv(T, [H|A], R).\n')
+    c = {'incremental_answers': 1}
+    if n >= 64:
+        c['answers_through_64_or_more_nested_bindings'] = 1
+    w = {'kind': kind, 'n': n}
+
+    def viol(kind_, detail):
+        return {'c': c, 'nt': True, 'key': None, 'v': {'kind': kind_, 'detail': detail, 'witness': w}}
+    yp = real.engine(real.compile(src))
+    lst = yp.makelist([yp.atom(x) for x in items])
+    R = yp.variable()
+    if kind == 'append':
+        q = yp.query('app', [lst, yp.makelist([yp.atom('z')]), R])
+        want = [items + ['z']]
+    elif kind == 'dup':
+        q = yp.query('dup', [lst, R])
+        want = [[x for x in items for _ in (0, 1)]]
+    elif kind == 'revacc':
+        q = yp.query('rv', [lst, yp.ATOM_NIL, R])
+        want = [list(reversed(items))]
+    else:
+        S = yp.variable()
+        q = yp.query('app', [R, S, lst])
+        want = [items[:i] for i in range(n + 1)]
+    saved = []
+    at = []
+    try:
+        for _ in q:
+            saved.append(R.get_value())
+            at.append(E.to_python(R))
+            if len(saved) > n + 2:
+                break
+    except RecursionError:
+        return {'c': c, 'nt': False, 'key': None, 'discard': 'recursion'}
+    if at != want:
+        return viol('to_python_at_answer_wrong', {'answers': len(at), 'expected_answers': len(want)})
+    for i, v in enumerate(saved):
+        if bound_variable_inside(E, v, cap=100000) or any(isinstance(x, E.Variable) for x in _walk_raw(E, v)):
+            return viol('collected_value_contains_a_variable', {'answer': i, 'where': 'value kept from the enumeration, looked at after the query ended'})
+        try:
+            tp = E.to_python(v)
+        except Exception as ex:
+            return viol('to_python_of_saved_value_raises', {'exc': type(ex).__name__, 'answer': i})
+        if tp != want[i]:
+            return viol('saved_value_changed_after_backtracking', {'answer': i, 'expected_len': len(want[i]), 'got': repr(tp)[:200]})
+        c['values_checked_after_close'] = c.get('values_checked_after_close', 0) + 1
+    return {'c': c, 'nt': True, 'key': ('incremental', kind, tuple(items))}
+
+
+def _walk_raw(E, value, cap=100000):
+    """every node of a term as stored (no dereferencing)"""
+    stack = [value]
+    k = 0
+    while stack and k < cap:
+        k += 1
+        o = stack.pop()
+        yield o
+        if isinstance(o, E.Functor):
+            stack.extend(o._args)
+
+
 def run_case(ctx, seed, idx, tier):
     rng = random.Random((seed * 1000003 + idx) * 7 + 15)
+    if idx % 25 == 7:
+        return incremental_case(ctx, rng)
     real = ctx['real']
     E = real.E
     vs, eqs, order = gen_system(rng)
